@@ -646,8 +646,19 @@ where
                     let hash_fn: &HashFn<'static> = unsafe { std::mem::transmute(hash_fn) };
                     thread_pool.spawn_fifo(move || {
                         let _open_files_guard = RLIMIT_OPEN_FILES.clone().access_owned();
-                        let old_hash = fg[0].file_hash.clone();
-                        if let Some(hash) = hash_fn((&mut fg[0].file_info, old_hash)) {
+                        // All the files in this group are the same file, so only one of them
+                        // is hashed. If it cannot be read, e.g. because that path has just been
+                        // removed, it is left out and the next path is tried, so that the other
+                        // paths of the file are not lost together with it.
+                        let mut hash = None;
+                        while hash.is_none() && !fg.is_empty() {
+                            let old_hash = fg[0].file_hash.clone();
+                            hash = hash_fn((&mut fg[0].file_info, old_hash));
+                            if hash.is_none() {
+                                fg.remove(0);
+                            }
+                        }
+                        if let Some(hash) = hash {
                             // The hash function may update the length (e.g. when transforming).
                             // All the files in this group are the same file, so they must get
                             // the same length, otherwise they would end up in different groups.
